@@ -13,8 +13,8 @@ RULE = ("exhaustive box of (ns, nswin, overlap<nswin) triples sharded by nswin, 
         "a triple is non-trivial when it produces >= 2 windows; distinct = distinct triple "
         "(distinct_nontrivial counts them per shard and is summed over disjoint shards)")
 ASSUMPTIONS = ["numpy arithmetic is exact on the integer ranges used"]
-REQUIRED = {"triples": 1000, "interleaved_checked": 200, "splicing_sums_checked": 100, "valid_partitions_checked": 100, "nwin_checked": 1000, "repeat_queries_checked": 1000, "huge_triples": 100}
-CASE_TIMEOUT = 600.0
+REQUIRED = {"triples": 1000, "interleaved_checked": 200, "splicing_sums_checked": 100, "valid_partitions_checked": 100, "nwin_checked": 1000, "repeat_queries_checked": 1000, "huge_triples": 100, "abandoned_passes": 300}
+CASE_TIMEOUT = 120.0
 
 
 def EXHAUSTIVE(tier):
@@ -33,12 +33,24 @@ def gen_cases(seed, tier):
     return cases
 
 
+class Runaway(Exception):
+    pass
+
+
+def bounded(gen, cap):
+    """iterate a window generator, but never more than cap items: a generator that does not stop is reported, not waited for"""
+    for k, item in enumerate(gen):
+        if k >= cap:
+            raise Runaway(f"more than {cap} windows produced")
+        yield item
+
+
 def check_triple(res, ns, nswin, overlap, WG, fs=30000.0):
     """all C17 predicates for one triple; returns number of windows"""
     T = (ns, nswin, overlap)
     try:
         wg = WG(ns, nswin, overlap)
-        fl = list(wg.firstlast)
+        fl = list(bounded(wg.firstlast, ns + 3))
     except Exception as e:
         res.exception("firstlast:exception", e, f"WindowGenerator{T}.firstlast")
         return 0
@@ -74,7 +86,7 @@ def check_triple(res, ns, nswin, overlap, WG, fs=30000.0):
         res.exception("tscale:exception", e, f"{T}")
     # slices agree with firstlast
     try:
-        sl = list(wg.slice)
+        sl = list(bounded(wg.slice, ns + 3))
         res.check([(s.start, s.stop) for s in sl] == fl and all(s.step is None for s in sl), "slice",
                   f"{T}: slice generator disagrees with firstlast")
         if ns <= 60:
@@ -93,7 +105,7 @@ def check_triple(res, ns, nswin, overlap, WG, fs=30000.0):
     # valid sub-windows: exact partition
     if overlap % 2 == 0:
         try:
-            flv = list(wg.firstlast_valid)
+            flv = list(bounded(wg.firstlast_valid, ns + 3))
             res.count("valid_partitions_checked")
             once = np.zeros(ns, int)
             ok = len(flv) == n
@@ -115,7 +127,7 @@ def check_triple(res, ns, nswin, overlap, WG, fs=30000.0):
             key = "splicing:other"
         try:
             tot = np.zeros(ns)
-            sp = list(wg.firstlast_splicing)
+            sp = list(bounded(wg.firstlast_splicing, ns + 3))
             ok = len(sp) == n
             for (f, l, amp), (f0, l0) in zip(sp, fl):
                 ok &= (f, l) == (f0, l0) and amp.shape == (l - f,)
@@ -133,7 +145,7 @@ def check_triple(res, ns, nswin, overlap, WG, fs=30000.0):
             once = np.zeros(ns, int)
             tot = np.zeros(ns)
             k = 0
-            for (f, l, fv, lv), (f2, l2, amp) in zip(wg.firstlast_valid, wg.firstlast_splicing):
+            for (f, l, fv, lv), (f2, l2, amp) in zip(bounded(wg.firstlast_valid, ns + 3), bounded(wg.firstlast_splicing, ns + 3)):
                 wg.tscale(fs)
                 once[fv:lv] += 1
                 tot[f2:l2] += amp
@@ -144,13 +156,33 @@ def check_triple(res, ns, nswin, overlap, WG, fs=30000.0):
             res.check(np.max(np.abs(tot - 1)) <= 1e-12, "splicing:interleaved-generators",
                       f"{T}: zip(firstlast_valid, firstlast_splicing) on one object: amplitudes sum to [{tot.min():.4f}, {tot.max():.4f}]")
             once = np.zeros(ns, int)
-            for (f, l), (f1, l1, fv, lv) in zip(wg.firstlast, wg.firstlast_valid):
-                list(wg.slice)
+            for (f, l), (f1, l1, fv, lv) in zip(bounded(wg.firstlast, ns + 3), bounded(wg.firstlast_valid, ns + 3)):
+                list(bounded(wg.slice, ns + 3))
                 once[fv:lv] += 1
             res.check(np.all(once == 1), "valid:partition:interleaved-generators", f"{T}: zip(firstlast, firstlast_valid) with slice inside the loop: samples counted "
                       f"{np.unique(once).tolist()} times")
         except Exception as e:
             res.exception("interleaved:exception", e, f"{T}")
+    # a pass that is ABANDONED (the caller breaks out of the loop once it has found its window, or the loop body raises) leaves nothing behind: the next
+    # pass over the same object starts at the first window again
+    if n >= 2 and (ns + 3 * nswin + overlap) % 3 == 0:
+        try:
+            stop_at = 1 + (ns + nswin) % (n - 1) if n > 2 else 1
+            for k_, _w in enumerate(bounded(wg.firstlast, ns + 3)):
+                if k_ == stop_at:
+                    break
+            again = list(bounded(wg.firstlast, ns + 3))
+            res.check(again == fl, "firstlast:after-abandoned-pass", f"{T}: after a pass left at window {stop_at} of {n}, the next pass gives {again[:3]}.. ({len(again)} windows), not {fl[:3]}.. ({n})",
+                      counter="abandoned_passes")
+            it = iter(bounded(wg.firstlast_valid, ns + 3)) if overlap % 2 == 0 else None
+            if it is not None:
+                next(it)
+                del it
+                res.check(list(bounded(wg.firstlast, ns + 3)) == fl, "firstlast:after-abandoned-pass", f"{T}: after an abandoned pass over firstlast_valid the windows differ")
+        except Runaway as e:
+            res.violation("firstlast:does-not-terminate", f"{T}: after an abandoned pass: {e}")
+        except Exception as e:
+            res.exception("abandoned:exception", e, f"{T}")
     # the answers are facts about (ns, nswin, overlap) and the arguments of the call, not about what the object was asked before: asked again
     # after everything above - with another sampling rate, after the caller edited the arrays it was handed - every answer is the same
     try:
@@ -164,13 +196,13 @@ def check_triple(res, ns, nswin, overlap, WG, fs=30000.0):
         exp = (first + last - 1) / 2 / fs
         res.check(ts3.shape == exp.shape and np.allclose(ts3, exp, rtol=1e-12, atol=0), "tscale:after-caller-edit",
                   f"{T}: tscale({fs}) after the caller overwrote an earlier result gives {ts3[:3]}, window centres are {exp[:3]}")
-        res.check(list(wg.firstlast) == fl and wg.nwin == n, "firstlast:second-pass", f"{T}: a second pass over firstlast / nwin gives a different answer")
+        res.check(list(bounded(wg.firstlast, ns + 3)) == fl and wg.nwin == n, "firstlast:second-pass", f"{T}: a second pass over firstlast / nwin gives a different answer")
         if 2 * overlap <= nswin:
-            sp1 = list(wg.firstlast_splicing)
+            sp1 = list(bounded(wg.firstlast_splicing, ns + 3))
             for _, _, amp in sp1:
                 amp[:] = 0
             tot = np.zeros(ns)
-            for f, l, amp in wg.firstlast_splicing:
+            for f, l, amp in bounded(wg.firstlast_splicing, ns + 3):
                 tot[f:l] += amp
             res.check(np.max(np.abs(tot - 1)) <= 1e-12, "splicing:after-caller-edit",
                       f"{T}: splicing amplitudes of a second pass, after the caller zeroed those of the first, sum to [{tot.min():.4f}, {tot.max():.4f}]")
